@@ -93,14 +93,21 @@ class C12(Prop):
         # the two key parsers on their own: valid texts, the unparsable pools, and random edits of both
         for i in range(max(200, budget // 4)):
             src = f_rpms.gen_source(rng)
-            base = f_rpms.valid_op(rng, src, "V", "x86_64", rng.randrange(3))["nevra"] if rng.random() < 0.8 else rng.choice(f_rpms.UNPARSABLE)
-            s = base if rng.random() < 0.4 else mc.mutate_str(rng, base)
-            yield {"op": "check_nevra", "args": {"s": s}}
+            vop = f_rpms.valid_op(rng, src, "V", "x86_64", rng.randrange(3))
+            base = vop["nevra"] if rng.random() < 0.8 else rng.choice(f_rpms.UNPARSABLE)
+            keep = rng.random() < 0.4
+            s = base if keep else mc.mutate_str(rng, base)
+            yield {"op": "check_nevra", "args": {"s": s, "expect": vop["expect"]["key"] if keep and base is vop["nevra"] else None}}
         for i in range(max(200, budget // 4)):
             parts = f_modules.gen_module(rng)
-            base = rng.choice(f_modules.PREFIXES) + ":".join(parts) if rng.random() < 0.8 else rng.choice([u for u in f_modules.BAD_UIDS if isinstance(u, str)])
-            s = base if rng.random() < 0.4 else mc.mutate_str(rng, base)
-            yield {"op": "check_uid", "args": {"uid": s if rng.random() < 0.97 else rng.choice([None, 7, ["a:b"], {"a": "b"}])}}
+            good = rng.random() < 0.8
+            base = rng.choice(f_modules.PREFIXES) + ":".join(parts) if good else rng.choice([u for u in f_modules.BAD_UIDS if isinstance(u, str)])
+            keep = rng.random() < 0.4
+            s = base if keep else mc.mutate_str(rng, base)
+            if rng.random() < 0.03:
+                yield {"op": "check_uid", "args": {"uid": rng.choice([None, 7, ["a:b"], {"a": "b"}]), "expect": None}}
+            else:
+                yield {"op": "check_uid", "args": {"uid": s, "expect": ":".join(parts) if good and keep else None}}
         for i in range(budget):
             k = kinds[i % 3]
             yield {"op": "trace", "args": {"kind": k, "ops": FORMATS[k].gen_ops(rng, tier)}}
@@ -146,7 +153,7 @@ class C12(Prop):
         if case["op"] == "trace":
             return [{"op": "bld_trace", "args": {"kind": a["kind"], "ops": strip_ops(a["ops"])}}]
         if case["op"] in ("check_nevra", "check_uid"):
-            return [{"op": "bld_" + case["op"], "args": a}]
+            return [{"op": "bld_" + case["op"], "args": dict((k, v) for k, v in a.items() if k != "expect")}]
         if case["op"] == "trace_init":
             return [{"op": "bld_trace", "args": {"kind": a["kind"], "init": a["init"], "ops": a["ops"]}}]
         if case["op"] == "relative_to":
@@ -193,6 +200,8 @@ class C12(Prop):
         if case["op"] in ("check_nevra", "check_uid"):
             if "err" in real_out and real_out["err"] not in ("ValueError", "TypeError"):
                 return {"kind": "wrong-exception", "observed": real_out["err"], "required": "ValueError or TypeError"}
+            if a.get("expect") is not None and real_out != {"ok": a["expect"]}:
+                return {"kind": "wrong-key", "observed": real_out, "required": {"ok": a["expect"]}}
             return None
         if case["op"] == "relative_to":
             want = mc.rel_spec(a["path"], a["root"])
